@@ -244,7 +244,13 @@ macro_rules! impl_derivatives {
 
             #[inline]
             fn tanh(&self) -> Self {
-                self.sinh() / self.cosh()
+                let c = self.re.cosh();
+                let f0 = self.re.tanh();
+                let f1 = (c.clone() * &c).recip();
+                second!($deriv, let two = F::one() + F::one(););
+                second!($deriv, let f2 = -f0.clone() * &f1 * two;);
+                third!($deriv, let f3 = (f0.clone() * &f0 * two - f1.clone()) * &f1 * two;);
+                chain_rule!($deriv, Self::chain_rule(self, f0, f1, f2, f3))
             }
 
             #[inline]
